@@ -13,7 +13,10 @@ static Result run_c07(const Case &c) {
     std::vector<uint8_t> data = expand_buffer(c, "data");
     int legacy = (int)c.get("legacy");
     if (legacy) setenv("LIBERASURECODE_WRITE_LEGACY_CRC", "1", 1); else unsetenv("LIBERASURECODE_WRITE_LEGACY_CRC");
+    null_arg1() = (uint64_t)c.get("null_arg1", 0);
+    if (null_arg1() && g.backend == ref::B_NULL) r.cls("null_private_argument_set");
     Instance in(g);
+    null_arg1() = 0;
     if (!in.ok()) { unsetenv("LIBERASURECODE_WRITE_LEGACY_CRC"); r.fail("create refused rc=" + std::to_string(in.desc)); return r; }
     // "pure function of (configuration, data)": also of nothing the descriptor did before
     unsetenv("LIBERASURECODE_WRITE_LEGACY_CRC");       // (the earlier calls run with the switch off: their expected outputs are the standard ones)
@@ -56,6 +59,7 @@ static Case gen_c07() {
     gen_buffer(c, "data", gen_length(g, cap));
     c.set("legacy", coin(1, 4) ? 1 : 0);
     if (coin()) c.setv("hist", gen_prehistory());
+    if (g.backend == ref::B_NULL && coin()) c.set("null_arg1", coin() ? 11 : pick(1, 1 << 20));
     return c;
 }
 // every back end, every shape once
@@ -68,6 +72,7 @@ static void sweep_c07() {
         size_t unit = (size_t)g.k * ref::word_bytes(g);
         c.set("data_cls", BUF_RANDOM); c.set("data_seed", 300 + counter); c.set("data_len", (int64_t)(unit * 2 + (counter % 3)));
         c.set("legacy", (counter / 2) & 1);
+        if (g.backend == ref::B_NULL && (counter & 1)) c.set("null_arg1", 11);
         sweep_case(c, run_c07);
     };
     for (int be : {ref::B_RS, ref::B_ISA_V, ref::B_ISA_C, ref::B_NULL})
@@ -520,6 +525,89 @@ static Result run_c05_encode(const Case &c) {
     if (bs % 16) r.cls("payload_not_multiple_of_16");
     return r;
 }
+// (f) the built-in code used directly (its own interface, as its own test uses it): an erasure SET is unordered, so the
+// missing-index list is presented in every order; decode of the whole set and the rebuild of each member
+struct xor_code_full { int k, m, hd; int pad; unsigned int *parity_bms; unsigned int *data_bms;
+    int (*decode)(void *, char **, char **, int *, int, int); void (*encode)(void *, char **, char **, int); int (*fragments_needed)(void *, int *, int *, int *); };
+extern "C" int xor_reconstruct_one(void *code_desc, char **data, char **parity, int *missing_idxs, int index_to_reconstruct, int blocksize);
+static Result run_c05_direct(const Case &c) {
+    Result r;
+    Config g = cfg_from(c);
+    int n = g.n(), bs = (int)c.get("bs", 32);
+    xor_code_full *code = (xor_code_full *)init_xor_hd_code(g.k, g.m, g.hd);
+    if (!code) { r.fail("init_xor_hd_code refused a supported shape"); return r; }
+    std::vector<int> order = c.ints("missing");
+    std::vector<std::vector<uint8_t>> orig(n, std::vector<uint8_t>(bs));
+    uint64_t sd = 600 + (uint64_t)c.get("seed", 0);
+    for (int i = 0; i < g.k; i++) for (auto &b : orig[i]) b = (uint8_t)splitmix64(sd);
+    auto alloc = [&](std::vector<char *> &bufs) { for (int i = 0; i < n; i++) { void *p = nullptr; if (posix_memalign(&p, 16, bs ? bs : 16)) abort(); bufs.push_back((char *)p); } };
+    auto release = [&](std::vector<char *> &bufs) { for (char *p : bufs) free(p); bufs.clear(); };
+    std::vector<char *> bufs; alloc(bufs);
+    for (int i = 0; i < g.k; i++) memcpy(bufs[i], orig[i].data(), bs);
+    for (int i = g.k; i < n; i++) memset(bufs[i], 0, bs);
+    code->encode(code, bufs.data(), bufs.data() + g.k, bs);
+    for (int i = g.k; i < n; i++) orig[i].assign((uint8_t *)bufs[i], (uint8_t *)bufs[i] + bs);
+    {   // parity against the golden equations
+        const ref::XorShape *sh = ref::xor_shape(g.k, g.m, g.hd);
+        for (int j = 0; j < g.m && r.ok; j++) {
+            std::vector<uint8_t> x(bs, 0);
+            for (int i = 0; i < g.k; i++) if (ref::xor_parity_mask(sh, j) >> i & 1) for (int b = 0; b < bs; b++) x[b] ^= orig[i][b];
+            if (x != orig[g.k + j]) r.fail("direct encode: parity " + std::to_string(j) + " is not the XOR of its golden equation");
+        }
+    }
+    auto load = [&]() { for (int i = 0; i < n; i++) memcpy(bufs[i], orig[i].data(), bs); for (int x : order) memset(bufs[x], 0, bs); };
+    std::vector<int> miss(order.begin(), order.end()); miss.push_back(-1); miss.resize(n + 2, -1);
+    if (r.ok) {
+        load();
+        std::vector<int> mcopy = miss;
+        int rc = code->decode(code, bufs.data(), bufs.data() + g.k, mcopy.data(), bs, 1);
+        if (rc != 0) r.fail("direct decode of " + std::to_string(order.size()) + " (< hd) erasures failed rc=" + std::to_string(rc));
+        else for (int i = 0; i < n; i++) if (memcmp(bufs[i], orig[i].data(), bs)) { r.fail("direct decode: fragment " + std::to_string(i) + " differs afterwards (missing list given in this order)"); break; }
+    }
+    for (size_t j = 0; j < order.size() && r.ok; j++) {
+        load();
+        std::vector<int> mcopy = miss;
+        int rc = xor_reconstruct_one(code, bufs.data(), bufs.data() + g.k, mcopy.data(), order[j], bs);
+        if (rc != 0) r.fail("direct rebuild of fragment " + std::to_string(order[j]) + " failed rc=" + std::to_string(rc));
+        else if (memcmp(bufs[order[j]], orig[order[j]].data(), bs)) r.fail("direct rebuild of fragment " + std::to_string(order[j]) + " returned other bytes (missing list given in this order)");
+        for (int i = 0; i < n && r.ok; i++) if (std::find(order.begin(), order.end(), i) == order.end() && memcmp(bufs[i], orig[i].data(), bs)) r.fail("direct rebuild modified surviving fragment " + std::to_string(i));
+    }
+    release(bufs);
+    free(code);
+    bool sorted = std::is_sorted(order.begin(), order.end());
+    r.cls(sorted ? "missing_list_ascending" : "missing_list_other_order");
+    r.nontrivial = order.size() >= 2;
+    return r;
+}
+static void sweep_c05_direct() {
+    int shard = (int)opts().shard, ns = (int)opts().nshards, counter = 0;
+    bool th = opts().tier == "thorough";
+    for (int si = 0; si < ref::N_XOR_SHAPES; si++) {
+        const ref::XorShape &sh = ref::XOR_SHAPES[si];
+        Config g; g.backend = ref::B_XOR; g.k = sh.k; g.m = sh.m; g.hd = sh.hd; g.ct = CT_NONE;
+        int n = g.n();
+        for (int e = 1; e < sh.hd; e++) {
+            std::vector<int> idx(e);
+            for (int i = 0; i < e; i++) idx[i] = i;
+            for (;;) {
+                std::vector<int> perm = idx;
+                do {
+                    if ((counter++ % ns) == shard && (th || e < 3 || (counter % 3) == 0)) {
+                        Case c; cfg_to(c, g);
+                        c.setv("missing", perm); c.set("bs", (counter % 4 == 0) ? 100 : (counter % 4 == 1) ? 16 : (counter % 4 == 2) ? 36 : 4); c.set("seed", counter);
+                        sweep_case(c, run_c05_direct);
+                    }
+                } while (std::next_permutation(perm.begin(), perm.end()));
+                int i = e - 1;
+                while (i >= 0 && idx[i] == n - e + i) i--;
+                if (i < 0) break;
+                idx[i]++;
+                for (int j = i + 1; j < e; j++) idx[j] = idx[j - 1] + 1;
+            }
+        }
+    }
+    stats().exhaustive = true;
+}
 static void sweep_c05_encode() {
     static const int pays[] = {4, 8, 12, 20, 36, 100, 4100};
     bool th = opts().tier == "thorough";
@@ -622,6 +710,7 @@ int main(int argc, char **argv) {
     h.mode("c04_parity_mt", [] { rc_property("C04 parity closed form under concurrent encodes", gen_c04_parity_mt, run_c04_parity_mt); }, run_c04_parity_mt);
     h.mode("c05_tables", sweep_c05_tables, run_c05_tables);
     h.mode("c05_encode", sweep_c05_encode, run_c05_encode);
+    h.mode("c05_direct", sweep_c05_direct, run_c05_direct);
     h.mode("c05_unsupported", sweep_c05_unsupported, run_c05_unsupported);
     return harness_main(argc, argv, h);
 }
